@@ -252,7 +252,13 @@ def c07_sessions(V, tier, family="main"):
         cases.append(case)
     rnd = random.Random(C.seed() + 707)
     rnd.shuffle(cases)
-    cases = cases[:(90 if family == "main" else 60) if tier == "quick" else 1200]
+    if family == "chain":
+        # histories in which an UNMODIFIED document is closed between an edit and the final query come first
+        pri = [c for c in cases if any(e["t"] == "close" for e in c["hist"][:-1]) and any(e["t"] == "edit" for e in c["hist"])]
+        rest = [c for c in cases if c not in pri]
+        cases = pri[:150 if tier == "quick" else 1000] + rest[:30 if tier == "quick" else 200]
+    else:
+        cases = cases[:90 if tier == "quick" else 1200]
     base = os.path.join(C.BUILD, "ws", "lsphist7%s-%d" % (family, os.getpid()))
     shutil.rmtree(base, ignore_errors=True)
 
